@@ -69,7 +69,11 @@ static void drv_reset(void)
 {
     int i;
     a_reset(); a_hook = hook; ntab = 0; new_d = NULL;
+#ifdef USE_INITIALIZER
+    for (i = 0; i <= MAXO; i++) { cstl_array_t x = CSTL_ARRAY_INITIALIZER(A[i]); A[i] = x; }
+#else
     for (i = 0; i <= MAXO; i++) cstl_array_init(&A[i]);
+#endif
 }
 static void drv_aborted(void) { a_end(); }
 
